@@ -42,6 +42,12 @@ def run(chk):
         data = render(rng, t)
         trees.append((t, data if data else b"\n"))      # a zero-length file is an error by decision (DESIGN.md section 7)
         chk.hist("tree entries", len(t))
+    # generic escape: a backslash followed by any byte that is not an escape letter stands for that byte (also a raw newline, a blank, a ';')
+    for c in range(1, 256):
+        if c in b"abfnrtvx": continue
+        v = b"p" + bytes([c]) + b"q"
+        trees.append(([(b"k", STRING, v), (b"l", LIST, [v, b"z"])], b'k "p\\' + bytes([c]) + b'q";\nl ("p\\' + bytes([c]) + b'q", z)\n'))
+        chk.hist("generic escape")
     cases = [Case([('load', data), ('dump',)]) for _, data in trees]
     hs = run_harness(impl, cases); ms = run_model(drv, cases)
     distinct = set()
